@@ -36,7 +36,7 @@ RULE = ("per seeded base scenario (C03 space + breaker events + timeline; sync a
 COMPONENTS = common.REAL_COMPONENTS
 ASSUMPTIONS = ["only exceptions deriving from Exception are injected (BaseException subclasses are C13's domain)",
                "fault points are enumerated completely per base scenario; base scenarios are sampled"]
-BUDGETS = {"quick": (1500, 60), "thorough": (120000, 290)}
+BUDGETS = {"quick": (4500, 90), "thorough": (500000, 285)}
 SHRINK_CAP = 200
 EXC = ["Exception", "ValueError", "RuntimeError", "KeyError", "TimeoutError", "StopIteration", "AbortRetryError",
        "RetryExhaustedError", "CircuitOpenError", "AsyncTimeoutError", "OSError", "Custom"]
